@@ -139,6 +139,17 @@ Definition run_codec (v : val) : val :=
   | L [I 18; s] => vopt vstr (decode (dstr s))
   | L [I 19; kb; s] => vopt v_mapping (parse_qs (dbool kb) (dstr s))
   | L [I 20; kb; b] => v_form_res (form_deserialize_body (dbool kb) (dstr b))
+  | L [I 21; w; cl; chunks] =>       (* offered body: w = 1 WSGI (single chunk), 0 ASGI *)
+    vstr (if dbool w then offered_wsgi (dopt dnat cl) (concat (dlist dstr chunks))
+          else offered_asgi (dopt dnat cl) (dlist dstr chunks))
+  | L [I 22; w; cl; chunks] =>       (* get_media with the JSON handler over that body *)
+    v_deser (json_deserialize_body
+               (if dbool w then offered_wsgi (dopt dnat cl) (concat (dlist dstr chunks))
+                else offered_asgi (dopt dnat cl) (dlist dstr chunks)))
+  | L [I 23; w; cl; chunks] =>       (* ... with the URL-encoded form handler *)
+    v_form_res (form_deserialize_body true
+               (if dbool w then offered_wsgi (dopt dnat cl) (concat (dlist dstr chunks))
+                else offered_asgi (dopt dnat cl) (dlist dstr chunks)))
   | L [I 17; m] => vopt vstr (form_print (dlist (fun kv => (dstr (nth_val 0 kv), d_fval (nth_val 1 kv))) m))
   | _ => L [I (-1)]
   end.
